@@ -1186,6 +1186,10 @@ pub fn apply_s<T: El>(v: &mut Vec<T>, op: &VOp, sboxes: &mut Vec<Box<[T]>>) -> R
 /// overflows or exceeds isize::MAX bytes for every non-zero element size, so that std answers with
 /// CapacityOverflow / a "capacity overflow" panic before asking its allocator for anything.
 fn gen_additional(rng: &mut Rng, len: usize, small: usize) -> usize {
+    if rng.chance(1, 3) {
+        // often inside whatever spare capacity there is (reserve must then be a no-op)
+        return rng.below(6);
+    }
     if rng.chance(4, 5) {
         return rng.below(small);
     }
@@ -1363,6 +1367,7 @@ impl<'b, T: El> Pair<'b, T> {
             ledger::arm(kind, k);
         }
         let b = self.b;
+        let before = (self.bv.as_ptr() as usize, self.bv.capacity(), self.bv.len());
         let bv = &mut self.bv;
         let kept = &mut self.kept;
         let rb = catch_unwind(AssertUnwindSafe(|| apply_b::<T>(b, bv, op, kept)));
@@ -1391,6 +1396,17 @@ impl<'b, T: El> Pair<'b, T> {
             ledger::set_side(1);
             T::io_write(&mut self.bv, &mut self.sv, bytes);
             ledger::set_side(0);
+        }
+        if let (VOp::Reserve(n) | VOp::ReserveExact(n) | VOp::TryReserve(n) | VOp::TryReserveExact(n), true) = (op, rb.is_ok()) {
+            // "does nothing if the capacity is already sufficient": no move, no regrowth
+            if std::mem::size_of::<T>() > 0 && before.1 - before.2 >= *n {
+                rep.bump("c13.reserve_within_capacity_checked");
+                if self.bv.as_ptr() as usize != before.0 || self.bv.capacity() != before.1 {
+                    let d = format!("len {} capacity {} additional {}: buffer {:#x} -> {:#x}, capacity -> {}", before.2, before.1, n, before.0, self.bv.as_ptr() as usize, self.bv.capacity());
+                    rep.violate("C13", format!("C13/vec<{}>/{}/request-inside-the-capacity-was-not-a-no-op", T::NAME, name), d.clone());
+                    rep.violate("C18", format!("C18/vec<{}>/{}/reserved-capacity-moved-without-need", T::NAME, name), d);
+                }
+            }
         }
         self.ops += 1;
         rep.bump("c13.ops");
